@@ -286,7 +286,9 @@ func runC18(c *core.Ctx) core.Meta {
 	})
 
 	// work and data spreading over GPUs: the per-GPU work-group ranges (shared with C08)
-	checkWGDistribution(c, core.NewLocalProv(c), "R18.6")
+	lp := core.NewLocalProv(c)
+	lp.InlinePure = true
+	checkWGDistribution(c, lp, "R18.6")
 
 	return core.Meta{Level: "other",
 		Explanation: "RDMA clauses of C18 decided on SSA of amd/timing/rdma: SEND-DISCIPLINE on all handlers incl. the control port, FIELDS of cloned requests/responses by provenance, the frozen 4-row wiring table (output port ↔ input port ↔ transaction table ↔ address mapper) checked on each Send's provenance, reply matching on forwarded IDs, drain acknowledgement guarded by both tables empty and by isDraining, pause gate on requests from inside.",
